@@ -9,7 +9,14 @@ RULE = ("MC: TLC checks C07_RejectClean on Handshake.tla (Impl=\"spec\": where a
         "cross-stage and cross-session replay, API misuse; the model of the library as vendored (Impl=\"asis\") must be refuted. R: for the "
         "graph's states, each junk delivery J and each completing genuine delivery g: [path,g] vs [path,J,g] on real Machines, 2 curves x 2 "
         "ciphers; distinct = (combo, state, J, g). T: seeded random schedules with byte-level junk, then every usable machine must "
-        "complete with a fresh honest peer and every failed one refuse everything")
+        "complete with a fresh honest peer and every failed one refuse everything. M (HandshakeManager level, spec/HsReject.tla in vector "
+        "mode): situations {initiator awaiting stage 2 direct / through a relay / either, responder before stage 1 direct / through a relay, "
+        "responder that has answered} x rejected message R (every delivery operation of Handshake.tla on the genuine message, the reader's "
+        "own message reflected, stage 1 / stage 2 of another session, garbage; header index/counter/subtype treatments the manager routes on) "
+        "x source {the peer's underlay address, a foreign underlay address, through the relay}, with the outcomes the statement allows computed "
+        "by TLC from the Machine model; complete nodes in a synctest bubble run each vector against the undisturbed world: R is a stutter step "
+        "of every node's projected state (tunnels, pending, remote, learned addresses, lighthouse cache, relays, relay records) and after the "
+        "genuine message state and all later emissions equal the undisturbed run's; distinct = (situation, genuine path, source, R class)")
 ASSUMPTIONS = [
     "'the genuine message' = any stored unmodified message from which the specification lets the machine complete in that state",
     "'exactly as if the rejected message had never arrived' compares the real run with junk against the real run without it on: error, "
@@ -17,6 +24,13 @@ ASSUMPTIONS = [
     "responder whether the initiator completes with its answer and both directions decrypt",
     "a junk message that the code accepts (no error) is C05's subject, not C07's",
     "ChannelBinding() before/after is recorded as a diagnostic only; verdicts come from outcomes",
+    "manager level: 'exactly as if the rejected message had never arrived' is compared on the projected state of all nodes and on the "
+    "emissions after the genuine message by role (random tunnel indexes named by owner/peer, underlay addresses by node), without "
+    "ciphertext, message counters and liveness flags (a rejected message that came through the relay legitimately consumes a counter of "
+    "the relay tunnel); a message that makes the pending Machine report failed may instead abandon the pending handshake, the genuine "
+    "message then completes nothing",
+    "manager level: Curve25519/AES-GCM v2 certificates, no remote allow list, one relay; the quick tier runs a seeded sample with every "
+    "(situation, genuine path, source) x (route, base, header treatment, Machine outcome) class at least once",
 ]
 
 
@@ -37,7 +51,7 @@ def mgr_vectors(ctx):
         txt = f.read()
     os.remove(path)
     vecs = [tlaval.parse(m.group(1)) for m in _vec.finditer(txt)]
-    vecs = [v for v in vecs if v['sit']]
+    vecs = [v for v in vecs if v['sit'] and v['op']]      # (states of phase 45 carry only situation/base/header)
     if not vecs:
         raise MachineryError('HsReject.tla produced no vectors')
     keyf = lambda v: (v['sit'], v['gvia'], v['path'], v['base'], v['hdr'], v['op'], v['arg'])
@@ -74,7 +88,7 @@ def run_mgr(ctx):
     if ctx.quick:
         pick = mgr_sample(vecs, rnd, 1, 2, 2)
     else:
-        pick = mgr_sample(vecs, rnd, 3, 60, 12)
+        pick = list(vecs)       # every vector
     if os.environ.get('VERIF_C07_MGR_MAX'):
         pick = rnd.sample(pick, min(len(pick), int(os.environ['VERIF_C07_MGR_MAX'])))
     pick.sort(key=lambda v: (v['sit'], v['gvia']))
@@ -84,12 +98,27 @@ def run_mgr(ctx):
     ctx.extra['manager_vectors'] = {'specified': len(vecs), 'run': len(pick)}
     res = ctx.gotest('e2e', 'TestVerif_C07Mgr', tags='verif e2e_testing', also=('net',), timeout=900 if ctx.quick else 3000)
     hs.finish(ctx, res, 'manager')
+    acts = res.get('actions') or {}
+    if acts.get('unrealisable', 0) * 10 > len(pick):
+        raise MachineryError('manager stage: %d of %d vectors could not be built in the real world' % (acts.get('unrealisable', 0), len(pick)))
     return res
+
+
+MGR_GUARDS = ['sit:init_direct', 'sit:init_relay', 'sit:init_both', 'sit:resp_fresh', 'sit:resp_relay', 'sit:resp_answered',
+              'from:peer', 'from:foreign', 'from:relay', 'route:pending', 'route:fresh', 'route:drop', 'outcome:same',
+              'base:genuine', 'base:own', 'base:other1', 'base:other2', 'base:garbage',
+              # a rejected message from a foreign underlay address / through the relay met a pending handshake whose genuine
+              # message then came the other way
+              'init_direct:g-direct:from-foreign', 'init_relay:g-relay:from-foreign', 'init_relay:g-relay:from-peer',
+              'init_relay:g-relay:from-relay', 'init_both:g-relay:from-foreign', 'init_both:g-direct:from-relay',
+              'init_both:g-direct:from-foreign', 'resp_relay:g-relay:from-foreign', 'resp_fresh:g-direct:from-foreign']
 
 
 def run(ctx):
     if os.environ.get('VERIF_C07_STAGE') == 'mgr':      # development only
         run_mgr(ctx)
+        if not ctx.violations:
+            ctx.require_actions(*MGR_GUARDS)
         return
     base = dict(HI=("I1",), HR=("R1",), AR=("XR",), adv=("M",), ops=hs.ALL_OPS, pk=("full", "empty"), sk=("own", "bad"), misuse=True)
     vcs = (1,) if ctx.quick else (1, 2, 3)
@@ -104,7 +133,9 @@ def run(ctx):
         json.dump(plan, f)
     res = ctx.gotest('handshake', 'TestVerif_C07', also=('hs',), timeout=1500)
     hs.finish(ctx, res, 'harness')
+    run_mgr(ctx)
     if not ctx.violations:      # vacuity only matters for a run that reports no disagreement
+        ctx.require_actions(*MGR_GUARDS)
         ctx.require_actions('scenario', 'junk:truncated-after-ephemeral', 'junk:truncated-inside-static', 'junk:ephemeral-all-zero',
                         'junk:ephemeral-low-order', 'junk:ephemeral-off-curve', 'junk:payload-bit-flip', 'junk:truncated-header-only',
                         'T:Deliver', 'T:settle')
@@ -114,11 +145,13 @@ META = {
     'category': 'model_checking',
     'technique': 'TLA+ spec Handshake.tla with flynn/noise checkpoint/rollback modelled per token as implemented; TLC invariant C07_RejectClean '
                  '(and refutation of the as-vendored variant); junk-then-genuine scenarios generated from the state graph and executed on real '
-                 'Machines against the undisturbed run; seeded random junk schedules',
+                 'Machines against the undisturbed run; seeded random junk schedules; HsReject.tla (vector mode over situation x rejected '
+                 'message x source, outcomes from the Machine model) run differentially on complete nodes in a synctest bubble',
     'text': 'The model distinguishes the ReadMessage error exits that restore ck/h from those that return after tokens were mixed. Under the '
             'specification (state untouched or Machine failed) TLC proves that after a rejection every genuine message still yields the same '
             'result and that a failed Machine refuses everything. The harness delivers each junk class at each reachable state to real Machines, '
             'then the genuine message, and compares with the run without junk.',
     'design_ref': '3.2 C07',
-    'note': 'Manager level (continueHandshake keeps the pending entry when Failed()==false) is not driven here; it inherits the Machine verdict.',
+    'note': 'Manager level: spec/HsReject.tla vectors on complete nodes (harness/e2e/zz_verif_c07_test.go); side effects of continueHandshake/'
+            'beginHandshake applied before the message is authenticated show up as a non-stutter rejected step.',
 }
